@@ -1,19 +1,20 @@
 from props_common import TRUSTED_COMMON, VIEW_RULE, views_harness
 
 PROP = {
-    "lean_targets": ["MultiProofs.C01"],
-    "lean_module": "MultiProofs.C01",
+    "lean_targets": ["MultiProofs.C01", "MultiProofs.Inj"],
+    "lean_module": "MultiProofs.Inj",
     "theorems": [
         "Multi.C01.root_denotes",
         "Multi.C01.op_refines",
         "Multi.C01.reachable_denotes",
         "Multi.C01.reachable_in_bounds",
+        "Multi.reachable_injective",
         "Multi.C01.shape_functions_agree",
         "Multi.C01.strides_are_address_steps",
         "Multi.C01.paths_agree",
         "Multi.C01.broadcast_designates_source",
     ],
-    "harnesses": [views_harness(["c01"], 4800, 320000)],
+    "harnesses": [views_harness(["c01"], 4800, 320000, modes_thorough=["c01", "exhaustive"])],
     "trusted_base": TRUSTED_COMMON,
     "assumptions": ["index arithmetic does not overflow ptrdiff_t", "element type int, raw pointers (other pointer types: C11)"],
     "rule": VIEW_RULE,
